@@ -28,7 +28,16 @@ MANIFEST = dict(
         "Intermediate states are tied where the real code exposes them: HypervolumeCalculatorMDHOY::stream is called directly on generated reachable (region, points, "
         "split, cover) states (ops hoys, oracle = definition on the region), ndHelperA/ndHelperB (hence sweepA, sweepB, the splits) are called directly with preset front "
         "numbers (ops dca/dcb, the real header compiled with access control lifted, oracle = the pre/postconditions of figures 2 and 7), and the sweeps of "
-        "HypervolumeCalculator3D, HOY, HypervolumeContribution3D and the sorts are observed on every prefix of the input in sweep order."),
+        "HypervolumeCalculator3D, HOY, HypervolumeContribution3D and the sorts are observed on every prefix of the input in sweep order. "
+        "Scale classes (every run, both tiers): the ops dom, sort (fast, divide-and-conquer, switch), hv (2-D, 3-D, HOY, WFG, front end), con (2-D, 3-D, MD, front end; "
+        "k-smallest/k-largest) and ssp are also run with points AND reference multiplied by 2^e, e in {-60,-52,-44,-34,-24,-16,-14,-12,-10,-4,-1,1,4,10,24,34,44,60} "
+        "(same op at every class = scale family) and at random e in -60..60 (exact in binary floating point, no over-/underflow); expected: ranks, dominance "
+        "relations, contributor indices and selected index sets IDENTICAL to the unscaled line and hypervolumes / contributions times exactly 2^(e*m) - the "
+        "expected value comes from the theorems rankSpec_scale / fastSort_scale / hvSpec_scale_shift / hvQ_scale, not from a tolerance; an absolute tolerance "
+        "anywhere in these algorithms shows at some class. Translation classes: dom, hv, con, ssp are also run with points and reference shifted by +-2^k, k in {20,30,40,45} "
+        "(exact; every result must be identical: rankSpec_shift, hvSpec_scale_shift), which exposes a relative tolerance (the sorts have affine images up to 2^51). Tolerance inventory: translate/c13_tolerances.py regenerates on every run the list of all floating "
+        "literals with 0 < |v| < 1 and epsilon-style identifiers in the 14 anchored files (Gen/C13Tolerances.lean); Props/C13Tol.lean proves it equal to the "
+        "accounted list (c13_tolerances_inventory, c13_order_algorithms_have_no_tolerance), so a new or changed tolerance breaks an obligation."),
   note=TRUST + "only partially proved (`_partial` theorems in Props/C13.lean; tied by exact correspondence + oracle on every run): (1) HypervolumeCalculatorMDHOY - cover scan, "
        "pile/trellis case, split with an in-region bound and the entry are proved; hvHoy = hvSpec holds for every run accepted by the Boolean replay `hoyOk` (depth budget not exhausted, "
        "every bound inside its region); the C++ can choose a bound outside the region (stale median, reachable from operator(), corpus/C13/subroutines.txt) - observed harmless, the "
@@ -37,7 +46,11 @@ MANIFEST = dict(
        "the sweep (`SweepCorrect`) is open, the operator theorem is stated from it. "
        "HypervolumeContributionMD computes exp(sum(log(ref-p))): its results are compared after rounding to the nearest integer (tolerance 1e-6), everything else exactly. "
        "Theorems are about integer coordinates and lifted to rationals by the common-denominator argument (Lemmas/Scale.lean, Lemmas/RatLift.lean); the C++ runs on doubles, the "
-       "correspondence uses integer-valued doubles. The 1e-10 tolerances in upperEnvelope are modelled as exact comparisons (quotients of small integers). Finding C13-SSP-LEXLESS (F-C13-4: comparator `f2 < rhs.f1`, std::sort overflow with > 16 points "
+       "correspondence uses integer-valued doubles. The two absolute 1e-10 tolerances in upperEnvelope (regenerated inventory) are modelled as exact comparisons; this is sound exactly where two different "
+       "intersections / partial hypervolumes of the generated grids differ by more than 1e-10: offsets from the reference < 250 units, scale 2^e with 4^e > 1e-10, i.e. e >= -16 - "
+       "the ssp scale classes are restricted to -16 <= e <= 60 (dyadic q-classes /2..64 included). Below that regime (objective values of magnitude ~1e-5 and less) the unchanged code returns "
+       "sub-optimal subsets: OPEN finding C13-SSP-ABSTOL (F-C13-5, corpus/C13/f5_ssp_abstol.txt, findings_proposed/C13-SSP-ABSTOL.patch). Scale classes use powers of two only (other factors would "
+       "introduce rounding); hoys/dca/dcb are not scaled. translate/c13_tolerances.py (regex over comment-stripped source) is trusted. Finding C13-SSP-LEXLESS (F-C13-4: comparator `f2 < rhs.f1`, std::sort overflow with > 16 points "
        "of equal first coordinate) is fixed in /repo d62b7243. `stream` is tied and (as far as proved) specified on REACHABLE states only: objectives behind `split` are uncut; "
        "on other states the real stream and the model agree with each other but not with the definition (the median collected for an earlier split objective falls outside "
        "the region; example in the generator comment) - harmless in real runs by the invariant, see Lemmas/HOY*.lean. In the WFG model the rank-1 filter of limitSet is written as 'has no dominator'; WFG is exercised on at most 12 points. "
@@ -49,15 +62,18 @@ FINISH = dict(level="proof",
               rule="integer point sets from one SplitMix64 stream: dims 2..6, sizes 0..40 (quick) / ..300 (thorough), coordinates from small grids "
                    "(incl. negative values) with ties, duplicates, dominated and collinear points; sorts also on affine images with magnitudes up to 2^51 and at the "
                    "sizes 3^(m+1)-2..3^(m+1)+30 of the algorithm switch (one n > 5000 case in the thorough tier); subset selection up to 40 (120) points; "
-                   "reference points weakly above all points; "
+                   "reference points weakly above all points; scale classes 2^e, e in -60..60 (ssp: -16..60), as families of 18 classes on 6 (30) ops per kind and at random on 1/4 of the ops; translation classes +-2^k, k in {20,30,40,45}, on 1/6 of the dom/hv/con/ssp ops; "
                    "a case is non-trivial if it has >= 3 points and (for sort/hv) at least one tie or dominated pair; distinct = distinct op text")
 
-LAKE_TARGETS = ["SharkVerif.Props.C13", "drv_c13"]   # Props imports Lemmas/{FastSort,Hypervolume,HV3D,Contrib,DCFront,Subset2D,RatLift,Contrib3DE,HOY}
+LAKE_TARGETS = ["SharkVerif.Props.C13", "SharkVerif.Props.C13Tol", "drv_c13"]   # Props imports Lemmas/{FastSort,Hypervolume,HV3D,Contrib,DCFront,Subset2D,RatLift,Contrib3DE,HOY}
 REPO_SOURCES = ["src/Core/Random.cpp"]
 
 
 def translate(ctx):
-    return ctx.translate("ssp_point_less.py")
+    a = ctx.translate("ssp_point_less.py")
+    # tolerance inventory of the anchored files -> Gen/C13Tolerances.lean (obligation Props/C13Tol.lean)
+    b = ctx.translate("c13_tolerances.py")
+    return a and b
 
 
 def build(ctx):
@@ -107,6 +123,26 @@ def width_for(r, m, big=False):
 
 
 def flat(P): return " ".join(str(c) for p in P for c in p)
+
+
+def is_tok(t):
+    """q<den> (coordinates divided by den) or e<k> (coordinates multiplied by 2^k, k may be negative)"""
+    return len(t) > 1 and ((t[0] == "q" and t[1:].isdigit()) or (t[0] in "et" and re.fullmatch(r"-?\d+", t[1:]) is not None))
+
+
+# scale classes 2^e applied to points AND reference (power-of-two scaling: every comparison, difference and product in the
+# algorithms stays exact, no over-/underflow for |e| <= 60, m <= 6, |coordinate| < 2^53). Expected line = the unscaled line
+# (ranks / indices identical, volumes times 2^(e*m): rankSpec_scale, hvSpec_scale_shift, hvQ_scale)
+SCALES = [-60, -52, -44, -34, -24, -16, -14, -12, -10, -4, -1, 1, 4, 10, 24, 34, 44, 60]
+# HypervolumeSubsetSelection2D::upperEnvelope contains the absolute tolerances 1e-10 (regenerated: Gen/C13Tolerances.lean) on
+# intersections (unit: objective) and on partial hypervolumes (unit: objective^2).  On integer grids with offsets from the
+# reference below 250 two different intersections differ by >= 2^e/250^2 and two different areas by >= 4^e, so the unchanged
+# code is exact iff 4^e > 1e-10, i.e. e >= -16; below that it returns sub-optimal subsets (finding C13-SSP-ABSTOL)
+SSP_MIN_SCALE = int(os.environ.get("VERIF_C13_SSP_MIN_SCALE", "-16"))   # development knob: -60 on a tree with the finding repaired
+
+
+def scales_for(kind):
+    return [e for e in SCALES if kind != "ssp" or e >= SSP_MIN_SCALE]
 
 
 def gen_case(r, kind, nmax, ctx):
@@ -263,7 +299,7 @@ def prefix_family(r, line, ctx):
 # ----------------------------------------------------- shrinking of one op line
 def parse_line(line):
     t = line.split()
-    if t and t[0][0] == "q" and t[0][1:].isdigit():
+    if t and is_tok(t[0]):
         d = parse_line(" ".join(t[1:]))
         if d is not None: d["q"] = t[0]
         return d
@@ -315,8 +351,13 @@ def shrink_line(line, fails, budget=150):
 
 def classify(ops, res):
     op = ops[0].split()
-    if op[0][0] == "q" and op[0][1:].isdigit(): op = op[1:]
-    tag = op[0] + (":" + op[1] + ":" + op[2] if op[0] == "con" else "") + (":m" + op[1] if op[0] in ("sort", "hv") else "")
+    scale = ""; shift = ""
+    if is_tok(op[0]):
+        # scale class in the key: a defect that only shows at some scales is not the same finding as one at scale 1
+        if op[0][0] == "e": scale = "@2^" + op[0][1:]
+        if op[0][0] == "t": shift = "+shift"
+        op = op[1:]
+    tag = op[0] + (":" + op[1] + ":" + op[2] if op[0] == "con" else "") + (":m" + op[1] if op[0] in ("sort", "hv") else "") + scale + shift
     if res.crash and op[0] == "ssp" and "HypervolumeSubsetSelection2D::Point" in res.stderr and \
             re.search(r"std::__(unguarded_partition|introsort_loop|insertion_sort|unguarded_linear_insert)", res.stderr):
         d = parse_line(ops[0])
@@ -325,6 +366,11 @@ def classify(ops, res):
             if p[1] - d["ref"][1] < p[0] - d["ref"][0]: a_type[p[0]] = a_type.get(p[0], 0) + 1
         if len(d["P"]) > 16 and any(c >= 2 for c in a_type.values()):
             return "C13-SSP-LEXLESS:sort-overflow:ssp", f"std::sort with the inconsistent Point::operator< left the vector on {ops}"
+    if op[0] == "ssp" and scale and int(scale[3:]) < -16 and not res.crash:
+        # only inputs below the regime in which the 1e-10 tolerances of upperEnvelope are harmless (corpus/C13/f5_ssp_abstol.txt; the
+        # generator stays at e >= -16): a wrong subset at a scale >= 2^-16 keeps its own key
+        kind = "not-optimal" if any("subset-not-optimal" in o for o in res.oracle) else ("oracle" if res.oracle else "mismatch")
+        return f"C13-SSP-ABSTOL:scale-below-2^-16:{kind}:ssp", f"upperEnvelope's absolute tolerance 1e-10 decides at scale 2^{scale[3:]} on {ops}: impl={res.impl[:1]} model={res.model[:1]}"
     if res.crash:
         m = re.search(r"SUMMARY: \w+: (\S+)[^\n]*? in (?:\w+ )*(?:shark::)?(\w+)|runtime error: ([^\n]*)", res.stderr)
         t = (f"{m.group(1)}@{m.group(2)}" if m.group(1) else m.group(3)) if m else ("timeout" if "TIMEOUT" in res.stderr else "crash")
@@ -406,9 +452,9 @@ def run(ctx):
                         "the reference point is weakly dominated by every point (C++ documented precondition)",
                         "contribution queries: mutually non-dominated sets (duplicates allowed), 0 <= k <= n; subset selection: 1 <= k <= number of distinct non-dominated points"]
     translate(ctx)
-    ctx.prove(["SharkVerif.Props.C13"])
+    ctx.prove(["SharkVerif.Props.C13", "SharkVerif.Props.C13Tol"])
     if not ctx.quick:
-        ctx.leanchecker(["SharkVerif.Props.C13"])
+        ctx.leanchecker(["SharkVerif.Props.C13", "SharkVerif.Props.C13Tol"])
     exe = build(ctx)
     drv = ctx.driver("drv_c13")
     if not exe or not drv:
@@ -419,6 +465,7 @@ def run(ctx):
     plan = dict(dom=60, sort=260, hv=260, con=200, ssp=120, hoys=160, dca=100, dcb=140) if ctx.quick else \
         dict(dom=300, sort=1500, hv=1500, con=1200, ssp=700, hoys=1200, dca=600, dcb=900)
     fam = {"sort": 0, "hv": 0, "con": 0}
+    SCALED = ("dom", "sort", "hv", "con", "ssp"); sfam = {k: 0 for k in SCALED}
     for kind, cnt in plan.items():
         for i in range(cnt):
             nmax = 40 if ctx.quick else (300 if (kind == "sort" and i % 6 == 0) else 60)
@@ -426,6 +473,17 @@ def run(ctx):
             if kind in ("dom", "sort", "hv", "con", "ssp") and r.chance(1, 5) and not (kind == "sort" and "2243003" in l or "1125899" in l):
                 # dyadic rational coordinates: the C++ gets every coordinate divided by a power of two
                 l = f"q{r.choice([2, 4, 8, 64])} " + l; ctx.hist("rational_coordinates", kind)
+            elif kind in SCALED and r.chance(1, 4):
+                e = r.choice(scales_for(kind)) if r.chance(2, 3) else r.range(SSP_MIN_SCALE if kind == "ssp" else -60, 60)
+                l = f"e{e} " + l; ctx.hist("scale_class_random", f"{kind}:{'neg' if e < 0 else 'pos'}")
+            elif kind in ("dom", "hv", "con", "ssp") and r.chance(1, 6):
+                # translation class: points and reference shifted by +-2^k (sorts: affine images up to 2^51 above)
+                l = f"t{r.choice(['', '-'])}{r.choice([20, 30, 40, 45])} " + l; ctx.hist("translation_class", kind)
+            elif kind in SCALED and sfam[kind] < (6 if ctx.quick else 30) and len(l) < 700 and (kind == "dom" or nontrivial(l)):
+                # scale family: the same op at EVERY scale class (and unscaled)
+                sfam[kind] += 1
+                for e in scales_for(kind):
+                    lines.append(f"e{e} " + l); ctx.hist("scale_family", f"{kind}:2^{e}")
             lines.append(l)
             # prefix families (intermediate states of the sweeps): 3-/4-objective hypervolume, 3-D contributions, sorts
             if kind in fam and fam[kind] < (12 if ctx.quick else 60):
@@ -437,7 +495,7 @@ def run(ctx):
         # third arm of the switch: n > 5000 goes back to the divide-and-conquer sort
         P = gen_points(r, 3, 5003, 9, 0, "mix")
         lines.append(f"sort 3 5003 {flat(P)}"); ctx.hist("sort_nds_uses", "dc(n>5000)")
-    for l in lines: ctx.hist("op_mix", [t for t in l.split() if not (t[0] == "q" and t[1:].isdigit())][0])
+    for l in lines: ctx.hist("op_mix", [t for t in l.split() if not is_tok(t)][0])
     ctx.cov["evaluations"] = len(lines)
     ctx.cov["distinct_nontrivial"] = len({l for l in lines if nontrivial(l)})
     ctx.sample({"op": lines[len(lines) // 2][:200]})
